@@ -192,9 +192,11 @@ def gen_expr(rng, tier):
 # ---- cases -------------------------------------------------------------------
 
 def gen_cases(rng, tier):
+    for _ in range(40 if tier == 'quick' else 400):
+        yield E.gen_intlabel_case(rng, False)
     n_red, n_gb, n_ex = (9, 9, 5) if tier == 'quick' else (10, 10, 6)
     for ti in range(n_tables(tier)):
-        tab = E.gen_table(rng, nan=(ti % 2 == 1))
+        tab = E.gen_table(rng, inf=True, nan=(ti % 2 == 1))
         n = len(tab['y'])
         nanpos = [i for i, v in enumerate(tab['x']) if v is None]
         for si in range(3):
@@ -211,11 +213,17 @@ def _sample(case, compared):
     return {'case': case, 'observed': 'compared with pandas after %d non-empty batches, all equal' % compared}
 
 
+def _check(case, ctx):
+    if case.get('intlabel'):
+        return E.check_intlabel(case, ctx)
+    return E.check_prefix(case, ctx)
+
+
 def run_shard(seed, tier, shard, nshards):
-    return E.drive(PID, seed, tier, shard, nshards, lambda rng: gen_cases(rng, tier), E.check_prefix, sample_fn=_sample)
+    return E.drive(PID, seed, tier, shard, nshards, lambda rng: gen_cases(rng, tier), _check, sample_fn=_sample)
 
 
 def replay(case):
     ctx = E.Ctx(PID)
-    E.check_prefix(case, ctx)
+    _check(case, ctx)
     return ctx.violations()
